@@ -227,6 +227,9 @@ func zzPutScenario(focus string, k int) {
 	oldName := w.name.GetValue()
 	body, _ := json.Marshal(map[string]interface{}{"characteristics": ents})
 	rec := newRecorder()
+	// the request body arrives in one piece or in small pieces (several frames / segments)
+	zzBodyChunk = []int{0, 3}[verif.Choice("body-delivery", 2)]
+	defer func() { zzBodyChunk = 0 }()
 	p := verif.Panics(func() {
 		verif.MuxHandler(w.srv.Mux, "/characteristics").ServeHTTP(rec, zzRequest("PUT", "/characteristics", remote, nil, body))
 	})
